@@ -23,7 +23,7 @@ import (
 )
 
 var c17Docs = []string{
-	`rule r1 { when F.B then F.I = 1; }`,
+	`rule first salience 0x10 { when F.B then F.I = 1; } rule second "d2" { when !F.B then F.I = 2; }`,
 	`rule SpeedUp "When testcar is speeding up" salience 10 { when TestCar.SpeedUp == true && TestCar.Speed < TestCar.MaxSpeed then TestCar.Speed = TestCar.Speed + TestCar.SpeedIncrement; Log("Speed increased"); }`,
 	"rule R1 \"d\" salience -5 {\n when F.Arr[F.K] + 0x1F * 1.5e3 >= F.M[\"a\"] || !(F.S.Len() > 017) // c\n then F.I += 1; /* b */ Retract(\"R1\");\n}\nrule R2 { when F.B then F.S = 'a\\'b' + \"é\"; }",
 	`RULE Up 'single' SALIENCE 0x10 { WHEN TRUE && !F.B || nil == F.P THEN F.F -= .5; F.F *= 2.; F.F /= 0x1p-2; F.X().Y[1].Z(1, "two", F.W) ; }`,
@@ -84,6 +84,34 @@ func c17Mutants(doc string, tier string) []c17Mutant {
 	}
 	for _, a := range c17Alphabet {
 		out = append(out, c17Mutant{doc + " " + a, "append:" + a})
+	}
+	// whole-rule duplication and name collisions
+	var ruleStarts, nameIdx []int
+	for _, i := range sig {
+		if toks[i].Kind == "RULE" {
+			ruleStarts = append(ruleStarts, toks[i].Pos)
+		}
+	}
+	for k, i := range sig {
+		if toks[i].Kind == "RULE" && k+1 < len(sig) {
+			nameIdx = append(nameIdx, sig[k+1])
+		}
+	}
+	norm := recog.Normalise(doc)
+	for k, st := range ruleStarts {
+		end := len(norm)
+		if k+1 < len(ruleStarts) {
+			end = ruleStarts[k+1]
+		}
+		out = append(out, c17Mutant{norm + "\n" + norm[st:end], "duplicate-rule"})
+		out = append(out, c17Mutant{norm[st:end] + "\n" + norm, "duplicate-rule-first"})
+	}
+	for _, a := range nameIdx {
+		for _, b := range nameIdx {
+			if a != b {
+				out = append(out, c17Mutant{with(a, texts[b]), "rename-to-collide"})
+			}
+		}
 	}
 	step := 1
 	if tier == "quick" {
